@@ -116,3 +116,12 @@ def gen(rng, tier):
         lines += ["p " + hexs(x) for x in second]
         yield {"lines": lines, "keep": 1, "noshrink": True, "twin": (a, b, len(second))}
     yield {"lines": ["new 0 0", "new -5 0", "new 1 0", "p 5b5d", "p 5b5b5d5d"]}
+    # every prefix of every literal / keyword, alone and inside containers, as an exact-length buffer (the harness hands
+    # each chunk over in a heap block of exactly its size): a look-ahead past the bytes given is an out-of-bounds read
+    # (seed C04-6 - an 8-byte comparison of "Infinity" when 7 bytes are there - was found by chance only)
+    for word in (b"Infinity", b"-Infinity", b"NaN", b"true", b"false", b"null", b"INFINITY", b"-infinity", b"nan", b"TRUE", b"Null"):
+        for pre, post in ((b"", b""), (b"[", b"]"), (b'{"k":', b"}"), (b"[1, ", b" ]")):
+            full = pre + word + post
+            for cut in range(len(pre), len(full) + 1):
+                for flags in (0, 1):
+                    yield {"lines": ["new 32 %d" % flags, "p " + hexs(full[:cut]), "p " + hexs(full[cut:]), "p 00"], "keep": 1}
